@@ -578,6 +578,9 @@ impl TcpConnector {
 //@end
 }
 impl TcpConnectorService { pub fn default() -> (r: TcpConnectorService) { TcpConnectorService } }
+/// `#[derive(Default)]` on ConnectorService / Connector: field-wise defaults (the built-in resolver)
+impl ConnectorService { pub fn default() -> (r: ConnectorService) ensures r.resolver.kind is Default { ConnectorService { tcp: TcpConnectorService::default(), resolver: ResolverService::default() } } }
+impl Connector { pub fn default() -> (r: Connector) ensures r.resolver.resolver.kind is Default { Connector { resolver: Resolver::default() } } }
 impl Connector {
 //@extract file=actix-tls/src/connect/connector.rs item="impl Connector / fn new" ret=r props=C19 name=connector::factory_new
 //@spec
